@@ -1,7 +1,7 @@
 (* C11: OBD channels are interpolated onto GPS fixes; logs without OBD still convert. *)
 From Coq Require Import String Ascii List ZArith Bool.
 From TT Require Import Base.Outcome Base.Str Base.F64
-     Trackaddict.Columns Trackaddict.Model Convert.Model Proofs.C11_proofs.
+     Trackaddict.Columns Trackaddict.Model Convert.Model Proofs.C11_proofs Proofs.C11_spec.
 Import ListNotations.
 Local Open Scope Z_scope.
 
@@ -41,3 +41,36 @@ Theorem C11_at_reading :
     find_segment xs x 0 None = Some i -> feq x (nth i xs 0) = true -> pl_predict xs ys x = nth i ys 0.
 Proof. exact pl_predict_at_knot. Qed.
 Print Assumptions C11_at_reading.
+
+(* ---- PredictOBD as a whole, for ANY fitted predictor (the configured one) ---- *)
+(* `knots laps` is the pass that collects the fresh readings (xs, one ys per channel) and the rows to
+   fill; `get laps li ri` is row ri of lap li.  For every session and every predictor function:
+   the rows to fill are exactly rows with a GPS update and a stale OBD reading; the shape of the
+   session is unchanged; every other row is untouched; with fewer than two fresh readings nothing
+   changes; otherwise every channel of a row to fill is replaced by the predictor fitted on THAT
+   channel's fresh readings, evaluated at the row's time. *)
+Theorem C11_predict_spec :
+  forall pred laps laps', predict_obd_with pred laps = Ok laps' ->
+  exists st, knots laps = Ok st /\
+    (forall li ri x, In (li, ri, x) (p_needed st) -> in_bounds laps li ri /\ row_needs (get laps li ri)) /\
+    length laps' = length laps /\
+    (forall k, length (lap_recs (nth k laps' lap0)) = length (lap_recs (nth k laps lap0)) /\
+               lap_dur (nth k laps' lap0) = lap_dur (nth k laps lap0) /\ lap_num (nth k laps' lap0) = lap_num (nth k laps lap0)) /\
+    (forall li ri, ~ In (li, ri) (map pos (p_needed st)) -> get laps' li ri = get laps li ri) /\
+    ((length (p_xs st) < 2)%nat -> laps' = laps) /\
+    ((2 <= length (p_xs st))%nat ->
+       forall li ri x, In (li, ri, x) (p_needed st) ->
+         exists o o', r_obd (get laps li ri) = Some o /\
+                      obd_set o (map (fun ys => pred (p_xs st) ys x) (p_ys st)) = Ok o' /\
+                      get laps' li ri = set_record_obd (get laps li ri) o').
+Proof. exact predict_spec. Qed.
+Print Assumptions C11_predict_spec.
+
+(* fixes with fresh readings keep exactly their logged values (so do rows without OBD columns and
+   rows without a GPS update), whatever the predictor *)
+Theorem C11_fresh_rows_untouched :
+  forall pred laps laps' li ri, predict_obd_with pred laps = Ok laps' ->
+    (match r_obd (get laps li ri) with Some o => o_update o = true | None => True end \/ g_update (r_gps (get laps li ri)) = false) ->
+    get laps' li ri = get laps li ri.
+Proof. exact fresh_rows_untouched. Qed.
+Print Assumptions C11_fresh_rows_untouched.
